@@ -10,6 +10,9 @@ V = Path(__file__).resolve().parent.parent
 
 def one(sid: str) -> str:
     d = V / "seeded" / sid
+    import json
+    if json.loads((d / "meta.json").read_text()).get("retired"):
+        return f"{sid} ok (retired: no longer a violating change on the repaired tree)"
     tmp = Path(tempfile.mkdtemp(prefix="verif-reval-"))
     try:
         shutil.copytree("/repo/liquid2", tmp / "liquid2", ignore=shutil.ignore_patterns("__pycache__"))
